@@ -49,6 +49,26 @@ CHECKS = {
         note="updates falling exactly on the latency boundary accept either neighbour; clock observed through utcnow() in callbacks",
         design="4/C07",
     ),
+    "C06": dict(
+        category="exploration",
+        technique="Hypothesis-generated resting-order scenarios judged against an independent cumulative traded ledger "
+                  "(lone-order formula, Hall condition over all order subsets, price priority)",
+        text="The traded ledger and queue sizes come from the generated timeline itself; per update the passive fills of every "
+             "subset of orders in an isolation scope are bounded by the eligible half volume, a lone order matches the closed "
+             "formula exactly (even-cent class) and better-priced orders are served first. Held on everything explored.",
+        note="validity predicates instead of a second matcher (dict iteration order is not modelled); 2dp rounding tolerance stated in evidence",
+        design="4/C06",
+    ),
+    "C09": dict(
+        category="exploration",
+        technique="Hypothesis-generated multi-market simulation runs with removals; fragment-by-fragment price tracking and "
+                  "void / liability-scaling predicates after every update",
+        text="Orders in every state at the removal, all factor classes around the 2.5 threshold, the same removal repeated in up "
+             "to three markets of one framework (sequential and event-grouped); every fragment's price is followed across the "
+             "run so a missed or repeated reduction shows. Held on everything explored.",
+        note="non-runner liability formula taken from the repository's documented issue #454",
+        design="4/C09",
+    ),
 }
 
 NOT_BUILT_REASON = "check not built yet (build in progress; see DESIGN.md section 4)"
